@@ -25,6 +25,8 @@ func main() {
 	regFile := flag.String("regfile", "", "path of the registry file")
 	dynImport := flag.String("dyn", "", "import path of the dyn bridge")
 	genDir := flag.String("gendir", "", "directory the generator wrote to (registry: optional identifiers are looked up there)")
+	customDir := flag.String("customdir", "", "directory the generator will write to: custom typeref implementations are placed there")
+	fnv1aImport := flag.String("fnv1a", "github.com/PapaCharlie/go-restli/v2/fnv1a", "import path of the hash package custom typerefs refer to")
 	gen := flag.String("gen", "v2", "module generation the registry is for (v2 | v1)")
 	flag.Parse()
 	var s *schema.Schema
@@ -47,6 +49,16 @@ func main() {
 	must(os.WriteFile(filepath.Join(*out, "schema.json"), s.Describe(), 0o644))
 	must(os.WriteFile(filepath.Join(*out, "manifest.json"), s.ManifestV2(), 0o644))
 	must(os.WriteFile(filepath.Join(*out, "spec.json"), s.SpecV1(), 0o644))
+	if *customDir != "" {
+		// hand-written implementations of the corpus' custom typerefs, placed where the generator looks for them
+		for _, n := range s.Types {
+			if n.Kind == "typeref" && n.Custom {
+				dir := filepath.Join(*customDir, filepath.FromSlash(strings.ReplaceAll(n.Namespace, ".", "/")))
+				must(os.MkdirAll(dir, 0o755))
+				must(os.WriteFile(filepath.Join(dir, n.Name+".go"), []byte(schema.CustomTyperefSource(s.PackageRoot, n, *fnv1aImport)), 0o644))
+			}
+		}
+	}
 	if *regFile != "" {
 		var exists func(ns, ident string) bool
 		if *genDir != "" {
